@@ -1026,6 +1026,15 @@ fn c02_strategy() -> BoxedStrategy<ConcCase> {
             sched,
             reads,
         })
+        .prop_flat_map(|c| {
+            // one case in 200: the writer is never scheduled again from some point on (a stalled or
+            // dead writer is one of the schedules C02 quantifies over)
+            (Just(c), prop_oneof![199 => Just(None), 1 => (5u32..60).prop_map(Some)])
+        })
+        .prop_map(|(mut c, stop)| {
+            c.lives[0].stop_at = stop;
+            c
+        })
         .boxed()
 }
 
@@ -1084,7 +1093,7 @@ impl Property for C02 {
     type Case = ConcCase;
     const ID: &'static str = "C02";
     fn rule() -> String {
-        "cases = initial segment (missing | valid with generation g0, g0 biased to 2, 65530..65534 and odd values) x 1..6 publications of word-wise distinguishable records x 1..3 readers with 1..4 operations (snapshot, reopen, wait for k publications) x scheduling policy (uniform random from a choice stream | PCT priorities with <= 3 change points | bursts) x read-choice stream (which admissible message each load returns: all-newest = SC, mixed, mostly stale, always oldest). Every atomic load/store, every 8-byte word of the record copy and every file operation is a scheduling point of the real ShmWriter/ShmReader code. Oracle: the seven words of every accepted copy have one provenance (a completed publication or the valid initial record) and equal that record; a call that copied nothing returns its previous snapshot. Non-trivial: a reader's call overlapped writer accesses. Distinct = distinct case encoding.".into()
+        "cases = initial segment (missing | valid with generation g0, g0 biased to 2, 65530..65534 and odd values) x 1..6 publications of word-wise distinguishable records (in one case out of 200 the writer is never scheduled again from a generated point on) x 1..3 readers with 1..4 operations (snapshot, reopen, wait for k publications) x scheduling policy (uniform random from a choice stream | PCT priorities with <= 3 change points | bursts) x read-choice stream (which admissible message each load returns: all-newest = SC, mixed, mostly stale, always oldest). Every atomic load/store, every 8-byte word of the record copy and every file operation is a scheduling point of the real ShmWriter/ShmReader code. Oracle: the seven words of every accepted copy have one provenance (a completed publication or the valid initial record) and equal that record; a call that copied nothing returns its previous snapshot. Non-trivial: a reader's call overlapped writer accesses. Distinct = distinct case encoding.".into()
     }
     fn assumptions() -> Vec<String> {
         vec![
@@ -1094,8 +1103,8 @@ impl Property for C02 {
     }
     fn cases(tier: Tier) -> u64 {
         match tier {
-            Tier::Quick => 1_000_000,
-            Tier::Thorough => 30_000_000,
+            Tier::Quick => 600_000,
+            Tier::Thorough => 20_000_000,
         }
     }
     fn strategy(_tier: Tier) -> BoxedStrategy<ConcCase> {
